@@ -105,7 +105,9 @@ def check(case):
         argv = BASE + ['--theta=%s,%s,%d' % (fnum(th[0]), fnum(th[1]), th[2]), '--phi=%s,%s,%d' % (fnum(ph[0]), fnum(ph[1]), ph[2])]
         m = build.mm.main(argv, return_mininec=True)
         m.compute()
-        m.compute_far_field(build.mm.Angle(*th), build.mm.Angle(*ph))
+        # (through the API whole numbers are naturally given as Python ints)
+        as_api = lambda a: [int(a[0]) if float(a[0]).is_integer() else a[0], int(a[1]) if float(a[1]).is_integer() else a[1], a[2]]
+        m.compute_far_field(build.mm.Angle(*as_api(th)), build.mm.Angle(*as_api(ph)))
         et, ep = expected_axis(th), expected_axis(ph)
         want = [(t, p) for p in ep for t in et]
         zen = list(np.asarray(m.far_field.zen).flat)
